@@ -89,7 +89,8 @@ class Case:
         # te: the originator runs on a TunnelEndpoint with a second, anonymised overlay listening on it; IPv8-shaped data
         # that comes back for that overlay must reach it unchanged and attributed to the outside sender
         te = bool(c.get("te")) and c["kind"] == "data_in" and not fault and not c.get("nested")
-        w = World(loop, max(hops + 1, c.get("nodes", hops + 1)), tunnel_endpoint_at=(0,) if te else ())
+        w = World(loop, max(hops + 1, c.get("nodes", hops + 1)), tunnel_endpoint_at=(0,) if te else (),
+                  dispatcher=c.get("stack"))
         info = {"nontrivial": False, "cls": ""}
         try:
             origin = w.nodes[0]
@@ -110,18 +111,13 @@ class Case:
             origin.overlay.on_raw_data = lambda circ, org, data: got_raw.append((circ.circuit_id, tuple(org), data))
             got_anon: list = []
             if te:
-                from ipv8.messaging.interfaces.endpoint import EndpointListener
-
-                class AnonListener(EndpointListener):
-                    anonymize = True
-
-                    def on_packet(self, packet: tuple) -> None:
-                        # (a catch-all listener also sees the node's raw socket traffic: only its own prefix counts)
-                        if bytes(packet[1][:22]) == OTHER_PREFIX:
-                            got_anon.append((tuple(packet[0]), bytes(packet[1])))
+                # a real overlay that asked for anonymity (it listens for its own prefix, as every Community does)
+                from ipv8.community import Community
+                anon = origin.add(type("AnonOverlay", (Community,), {"community_id": OTHER_PREFIX[2:]}), anonymize=True)
+                if anon.get_prefix() != OTHER_PREFIX:
+                    raise AssertionError("prefix of the anonymised overlay")
+                anon.on_packet = lambda packet, warn_unknown=True: got_anon.append((tuple(packet[0]), bytes(packet[1])))
                 origin.endpoint.set_tunnel_community(origin.overlay, hops)
-                origin.endpoint.set_anonymity(OTHER_PREFIX, True)
-                origin.endpoint.add_listener(AnonListener(origin.endpoint))
             pongs: list = []
             orig_pong = origin.overlay.decode_map_private[7]
 
@@ -340,13 +336,21 @@ class Case:
             cid = nd.overlay.relay_from_to[cid].circuit_id
         evil = b"d4:evil" + payload[7:] if len(payload) > 8 else b"d4:evile"
         msg = b"\x01" + ref_addr(dest) + ref_addr(("0.0.0.0", 0)) + evil
-        if fault.get("plain"):
+        if fault.get("bare"):
+            body, plain = msg, 0            # not encrypted at all, plaintext flag clear
+        elif fault.get("plain"):
             body, plain = msg, 1
         else:
             body, plain = keys.encrypt_str(msg, FORWARD), 0
         cell = w.prefix + b"\x00" + struct.pack(">I", cid) + bytes([plain, 0]) + body
-        src = ("6.6.6.6", 6000) if not fault.get("spoof") else (([w.nodes[0]] + path)[k]).address
-        w.net.inject(src, target.address, cell)
+        prev_node = ([w.nodes[0]] + path)[k]
+        src = ("6.6.6.6", 6000) if not fault.get("spoof") else prev_node.address
+        dst = target.address
+        if fault.get("v6") and target.address6 is not None:
+            # delivered to the second address family of a dual-stack node
+            dst = target.address6
+            src = ("2001:db8::bad", 6000) if not fault.get("spoof") or prev_node.address6 is None else prev_node.address6
+        w.net.inject(src, dst, cell)
 
     def check_layers(self, w, seq0, circuit, path, refs, kind, payload, dest, outside, origin, links_fw) -> None:
         hops = len(path)
@@ -605,7 +609,7 @@ def _strategy():
         st.fixed_dictionaries({"type": st.just("splice"), "link": st.integers(0, 2)}),
         st.fixed_dictionaries({"type": st.just("swapcid"), "link": st.integers(0, 2)}),
         st.fixed_dictionaries({"type": st.just("inject"), "link": st.integers(0, 2), "plain": st.booleans(),
-                               "spoof": st.booleans()}),
+                               "spoof": st.booleans(), "bare": st.booleans(), "v6": st.booleans()}),
     )
     return st.fixed_dictionaries({
         "seed": st.integers(0, 10_000),
@@ -616,6 +620,7 @@ def _strategy():
         "nested": st.sampled_from([0, 0, 1]),
         "te": st.sampled_from([0, 0, 1]),
         "retiring": st.sampled_from([0, 0, 1]),
+        "stack": st.sampled_from([None, None, "v4", "dual", "dual"]),
         "dest": st.sampled_from([["5.5.5.5", 5555], ["2001:db8::5", 5555], ["5.6.7.8", 1]]),
         "resp": st.integers(0, 600),
         "fault": fault,
